@@ -31,11 +31,13 @@ package embed
 // equal to the host/dot-suffix rule in package domutil), with the service name as type and a non-empty id.
 //@ func (*VimeoExtractor).Extract(node)
 //@   requires ve != nil
+//@   ensures [C01,C07] #element-name-kept implies(node != nil, node.Data == old(node.Data))
 //@   ensures [C19] #only-allow-listed-host implies(result != nil, domutil.HasRootDomain(src, "player.vimeo.com") && typeis(result, *webdoc.Embed) &&
 //@              as(result, *webdoc.Embed).Type == "vimeo" && as(result, *webdoc.Embed).ID != "" && as(result, *webdoc.Embed).Element == node)
 
 //@ func (*YouTubeExtractor).Extract(node)
 //@   requires ye != nil
+//@   ensures [C01,C07] #element-name-kept implies(node != nil, node.Data == old(node.Data))
 //@   ensures [C19] #only-allow-listed-host implies(result != nil, (domutil.HasRootDomain(src, "youtube.com") || domutil.HasRootDomain(src, "youtube-nocookie.com")) && typeis(result, *webdoc.Embed) &&
 //@              as(result, *webdoc.Embed).Type == "youtube" && as(result, *webdoc.Embed).ID != "" && as(result, *webdoc.Embed).Element == node)
 
@@ -43,3 +45,25 @@ package embed
 //@   requires te != nil && node != nil
 //@   ensures [C19] #only-allow-listed-host implies(result != nil, dom.TagName(node) == "iframe" && domutil.HasRootDomain(dom.GetAttribute(node, "src"), "twitter.com") &&
 //@              result.Type == "twitter" && result.ID == dom.GetAttribute(node, "data-tweet-id") && result.ID != "" && result.Element == node)
+
+// The interface contract of EmbedExtractor.Extract (/verif/specs/embed.spec) promises that the name of the visited
+// element is not changed (the converter pairs start and end placeholders of list/quote elements by it).
+//@ func (*ImageExtractor).Extract(node)
+//@   requires ie != nil
+//@   ensures [C01,C07] #element-name-kept implies(node != nil, node.Data == old(node.Data))
+
+//@ func (*TwitterExtractor).Extract(node)
+//@   requires te != nil
+//@   ensures [C01,C07] #element-name-kept implies(node != nil, node.Data == old(node.Data))
+
+// processPicture renames at most one <source> element (to <img>); no other element name changes.
+//@ func (*ImageExtractor).processPicture(picture)
+//@   requires picture != nil
+//@   ensures [C01,C07] #only-a-source-is-renamed forall(x[*html.Node], implies(old(x.Data) != "source", x.Data == old(x.Data)))
+//@   loop 0 invariant forall(x[*html.Node], x.Data == old(x.Data))
+
+// findRealFigureImage may move an image out of <noscript> and parses noscript text into fresh nodes; it renames nothing.
+//@ func (*ImageExtractor).findRealFigureImage(figure)
+//@   requires figure != nil
+//@   ensures [C01,C07] #no-element-renamed forall(x[*html.Node], implies(old(allocated(x)), x.Data == old(x.Data)))
+//@   loop 0 invariant forall(x[*html.Node], implies(old(allocated(x)), x.Data == old(x.Data)))
